@@ -11,8 +11,11 @@ package topics
 //@ guarded Topic.subscribers, Topic.lastID, Topic.last, Topic.hasLast by Topic.mu
 //@ guarded Subscription.topic, Subscription.ch by Subscription.mu
 
+// unsubscribeID closes a subscriber's channel under Topic.mu: a delivery that
+// does not hold that mutex could send on a closed channel.
 //@ func (t *Topic) Publish
 //@   requires lock_free_on_entry: !held(t.mu)
+//@   at_send assert delivery_under_topic_lock: held(t.mu)
 //@   lockcheck
 //@   modifies heap
 //@ func (t *Topic) Last
@@ -21,6 +24,7 @@ package topics
 //@   modifies heap
 //@ func (t *Topic) Subscribe
 //@   requires lock_free_on_entry: !held(t.mu)
+//@   at_send assert delivery_under_topic_lock: held(t.mu)
 //@   lockcheck
 //@   modifies heap
 // Publish holds Topic.mu for the whole delivery and blocks sending to every
